@@ -76,6 +76,14 @@ static char *reg_ax(int sz) {
   unreachable();
 }
 
+// Drop the value of an expression that is evaluated only for its side
+// effects. Only a long double occupies a resource (an x87 register)
+// that has to be released.
+static void discard(Type *ty) {
+  if (ty && ty->kind == TY_LDOUBLE)
+    println("  fstp %%st(0)");
+}
+
 // Compute the absolute address of a given node.
 // It's an error if a given node does not reside in memory.
 static void gen_addr(Node *node) {
@@ -155,6 +163,7 @@ static void gen_addr(Node *node) {
     return;
   case ND_COMMA:
     gen_expr(node->lhs);
+    discard(node->lhs->ty);
     gen_addr(node->rhs);
     return;
   case ND_MEMBER:
@@ -244,7 +253,9 @@ static void store(Type *ty) {
     println("  movsd %%xmm0, (%%rdi)");
     return;
   case TY_LDOUBLE:
+    // An assignment is an expression: keep its value on the x87 stack.
     println("  fstpt (%%rdi)");
+    println("  fldt (%%rdi)");
     return;
   }
 
@@ -388,8 +399,10 @@ static char *cast_table[][11] = {
 };
 
 static void cast(Type *from, Type *to) {
-  if (to->kind == TY_VOID)
+  if (to->kind == TY_VOID) {
+    discard(from);
     return;
+  }
 
   if (to->kind == TY_BOOL) {
     cmp_zero(from);
@@ -803,11 +816,20 @@ static void gen_expr(Node *node) {
     store(node->ty);
     return;
   case ND_STMT_EXPR:
-    for (Node *n = node->body; n; n = n->next)
+    for (Node *n = node->body; n; n = n->next) {
+      if (!n->next && n->kind == ND_EXPR_STMT) {
+        // The value of the last expression statement is the value of
+        // the statement expression, so it must not be discarded.
+        println("  .loc %d %d", n->tok->file->file_no, n->tok->line_no);
+        gen_expr(n->lhs);
+        break;
+      }
       gen_stmt(n);
+    }
     return;
   case ND_COMMA:
     gen_expr(node->lhs);
+    discard(node->lhs->ty);
     gen_expr(node->rhs);
     return;
   case ND_CAST:
@@ -1214,8 +1236,10 @@ static void gen_stmt(Node *node) {
     }
     gen_stmt(node->then);
     println("%s:", node->cont_label);
-    if (node->inc)
+    if (node->inc) {
       gen_expr(node->inc);
+      discard(node->inc->ty);
+    }
     println("  jmp .L.begin.%d", c);
     println("%s:", node->brk_label);
     return;
@@ -1322,6 +1346,7 @@ static void gen_stmt(Node *node) {
     return;
   case ND_EXPR_STMT:
     gen_expr(node->lhs);
+    discard(node->lhs->ty);
     return;
   case ND_ASM:
     println("  %s", node->asm_str);
